@@ -7,7 +7,7 @@ Tokens are separated by single spaces.
 
 values  `N` None | `T`/`F` bool | `I<int>` | `D<repr>` float | `X<int>` float(int) | `S<cp,cp,…>` str |
         `L<n> v…` list | `U<n> v…` tuple | `M<n> (S<key> v)…` dict | `O<n> S<cls> (S<name> v)…` instance
-types   `i f s b a` | `o τ` | `l τ` | `v τ` (Tuple[τ, ...]) | `t<n> τ…` | `d τ` |
+types   `i f s b a` | `x y z` (untyped list / Tuple / dict) | `o τ` | `l τ` | `v τ` (Tuple[τ, ...]) | `t<n> τ…` | `d τ` |
         `c<n> S<name> (S<field> τ (`-` | `= v`))…`
 ops     `ty τ` (select the type) · `wf` · `parse v` · `ctor v` · `todict v` · `strip S…` · `line S…` ·
         `hook v` · `dump v`
@@ -88,6 +88,9 @@ partial def pTy : List String → Option (Ty × List String)
     | ['s'] => some (.str, rest)
     | ['b'] => some (.bool, rest)
     | ['a'] => some (.any, rest)
+    | ['x'] => some (.listAny, rest)
+    | ['y'] => some (.tupleAny, rest)
+    | ['z'] => some (.dictAny, rest)
     | ['o'] => (pTy rest).map (fun (t, r) => (.opt t, r))
     | ['l'] => (pTy rest).map (fun (t, r) => (.list t, r))
     | ['v'] => (pTy rest).map (fun (t, r) => (.tupleVar t, r))
